@@ -27,14 +27,18 @@ def canon(text):
                 line = m.group(1) + "(" + repr(sorted(v)) + ")"
             except Exception:
                 pass
+        else:
+            m = re.match(r"^(\s*(?:#|//)\s*\S+\s+)\((.*)\)\s*$", line)
+            if m and ", " in m.group(2):
+                line = m.group(1) + "(" + ", ".join(sorted(m.group(2).split(", "))) + ")"
         out.append(line)
     return out
 
 
 def compile_job(a):
-    work, name, src, scope, lang, seed = a
+    work, name, src, scope, lang, seed, sy, uy = a
     r = compilelib.compile_source(work, name, src, scope, lang, db_namespace=("ns" + scope[0]) if lang == "arduino" else None,
-                                  hashseed=seed, tz_version="c20")
+                                  hashseed=seed, tz_version="c20", start_year=sy, until_year=uy)
     return name, r
 
 
@@ -78,17 +82,23 @@ def run(ctx):
     work = vt.build_dir("C20")
     thorough = ctx.tier == "thorough"
     nt = set()
-    srcs = [("recon2020d", tzoracle.reconstruct_source("zonedbx")[0])]
+    srcs = [("recon2020d", tzoracle.reconstruct_source("zonedbx")[0], 2000, 2050)]
     long, stats, kept = tzexpand.expand(open(os.path.join(vt.VERIF, "tzsrc", "2025b", "tzdata.zi")).read())
-    srcs.append(("real2025b", long))
+    srcs.append(("real2025b", long, 2000, 2050))
+    # a small source with second-resolution offsets and an older year range (truncation paths of the generators)
+    srcs.append(("seconds", "Zone\tAfrica/Monrovia\t-0:43:08\t-\tLMT\t1882\n\t\t\t-0:43:08\t-\tMMT\t1919\tMar\n"
+                 "\t\t\t-0:44:30\t-\tMMT\t1972\tJan\t7\n\t\t\t0:00\t-\tGMT\n"
+                 "Rule\tPX\t1960\tmax\t-\tApr\tSun>=1\t2:00:30\t1:00\tD\nRule\tPX\t1960\tmax\t-\tOct\tlastSun\t2:00\t0\tS\n"
+                 "Zone\tTest/Seconds\t5:17:20\t-\tLMT\t1950\n\t\t\t5:17:20\tPX\tT%sT\t1985\n\t\t\t5:00\tPX\tT%sT\n"
+                 "Link\tAfrica/Monrovia\tTest/Alias\n", 1965, 2000))
     jobs = []
-    for label, src in srcs:
+    for label, src, sy, uy in srcs:
         for scope in ("extended", "basic"):
             for lang in ("arduino", "python"):
                 for run_i, hs in enumerate((0, 1000 + ctx.seed)):
-                    jobs.append((work, "%s_%s_%s_%d" % (label, scope, lang, run_i), src, scope, lang, hs))
+                    jobs.append((work, "%s_%s_%s_%d" % (label, scope, lang, run_i), src, scope, lang, hs, sy, uy))
     results = dict(vt.pmap(compile_job, jobs))
-    for label, src in srcs:
+    for label, src, sy, uy in srcs:
         emitted_by_scope = {}
         for scope in ("extended", "basic"):
             for lang in ("arduino", "python"):
@@ -136,7 +146,7 @@ def run(ctx):
                 if lang == "python":
                     # R2 imported tables == in-memory tables
                     zi, zp = import_generated(a["outdir"], "gen_%s_%s" % (label, scope))
-                    p = c03lib.pipeline(a["indir"], scope, 2000, 2050)
+                    p = c03lib.pipeline(a["indir"], scope, sy, uy)
                     ctx.evaluations += len(p["infos"]) + len(p["policies"])
                     nt.add((label, scope, "R2"))
                     if zi.ZONE_INFO_MAP != p["infos"]:
@@ -189,8 +199,8 @@ def run(ctx):
             xi = {z: i for i, z in enumerate(xz)}
             shared = [z for z in bz if z in xi and z not in trunc]
             stride = 60 if thorough else 600
-            rb, cb = sweeplib.run_sweep(exe, "b", len(bz), stride=stride, indices=[bz.index(z) for z in shared])
-            rx, cx = sweeplib.run_sweep(exe, "x", len(xz), stride=stride, indices=[xi[z] for z in shared])
+            rb, cb = sweeplib.run_sweep(exe, "b", len(bz), t0=tzoracle.t_of(max(sy, 1932)), t1=tzoracle.t_of(uy), stride=stride, indices=[bz.index(z) for z in shared])
+            rx, cx = sweeplib.run_sweep(exe, "x", len(xz), t0=tzoracle.t_of(max(sy, 1932)), t1=tzoracle.t_of(uy), stride=stride, indices=[xi[z] for z in shared])
             for c in cb + cx:
                 ctx.violation("R5-crash:" + label, c, "sweep of the fresh %s build crashed: %s" % (label, c["stderr"][-400:]))
             for z in shared:
